@@ -32,7 +32,17 @@ RULE = ("interactions: chains of 4..9 beads built through the Topology API in "
         "on rmin+i*step. splines: Lin/Cubic/Akima Interpolate (natural, "
         "periodic) and Fit on grids of 2..400 knots; central differences "
         "strictly inside intervals, one-sided 4-point differences at knots "
-        "(either side accepted); all boundary settings (natural, periodic, "
+        "(either side accepted). Family concurrent (keys concurrent/<form>/"
+        "value-differs-from-serial, derivative-differs-from-serial, and "
+        "ThreadSanitizer reports): 2..8 std::threads, each with its own "
+        "lj126 / ljg / cbspl objects, cubic / akima / linear splines and a "
+        "bond / angle / dihedral on its own Topology, evaluate value, "
+        "r-derivative, DF(i), D2F(i,j), Grad at thread-private random "
+        "arguments, released together by a barrier for 20/100 rounds (asan) "
+        "and 10/40 rounds (tsan); every result must equal bit for bit the "
+        "same call sequence run serially on identically built objects; "
+        "overlap of the threads is measured from time stamps "
+        "(concurrent_rounds_with_all_threads_overlapping); all boundary settings (natural, periodic, "
         "derivativezero where implemented; setBC and setBCInt) for all three "
         "types and for Fit; 4 evaluation points per spline OUTSIDE the grid "
         "(left and right, 1e-3..3 grid lengths away), judged by central "
@@ -54,13 +64,16 @@ RULE = ("interactions: chains of 4..9 beads built through the Topology API in "
 
 def prebuild():
     vf.build_harness("asan", "c07")
+    vf.build_harness("tsan", "c07")
 
 
 def run(chk):
     h = vf.build_harness("asan", "c07")
+    ht = vf.build_harness("tsan", "c07")
     env = vf.lib_env("asan")
     chk.rule = RULE
-    chk.sanitizer = {"flavour": "asan", "reports": 0}
+    chk.sanitizer = {"flavour": "asan", "reports": 0,
+                     "flavours": ["asan", "tsan"], "tsan_reports": 0}
     # budgets are case counts per shard (a case = one chain with all its
     # bonds/angles/dihedrals, one potential with 3-6 r values, one spline with
     # 8 evaluation points)
@@ -81,6 +94,26 @@ def run(chk):
     for name, res in zip(names, vf.run_parallel(jobs)):
         if not chk.ingest(res, name):
             chk.sanitizer["reports"] += 0 if res.rc == 0 else 1
+    # concurrent use of distinct objects: run on its own so that the threads
+    # of one monitor really overlap (asan: bit-for-bit comparison with the
+    # serial results; tsan: data-race reports in /repo code)
+    q = chk.tier != "thorough"
+    cplan = [("asan", h, env, T, 20 if q else 100, 6000 if q else 20000)
+             for T in ((2, 4, 8) if q else (2, 3, 4, 6, 8))]
+    cplan += [("tsan", ht, vf.lib_env("tsan"), T, 10 if q else 40,
+               3000 if q else 8000) for T in ((3, 6) if q else (2, 4, 8))]
+    jobs, names = [], []
+    for s, (fl, hh, ee, T, rounds, calls) in enumerate(cplan):
+        jobs.append(lambda hh=hh, ee=ee, T=T, rounds=rounds, calls=calls, s=s:
+                    vf.run_proc([hh, "--part", "conc", "--seed", str(chk.seed),
+                                 "--shard", str(s), "--threads", str(T),
+                                 "--rounds", str(rounds), "--n", str(calls)],
+                                env=ee, timeout=3000, cwd=tmp))
+        names.append("c07 concurrent %s %d threads" % (fl, T))
+    for (fl, *_), name, res in zip(cplan, names, vf.run_parallel(jobs, nproc=2)):
+        ok = chk.ingest(res, name, prefix="tsan:" if fl == "tsan" else "")
+        if not ok and res.rc != 0 and not res.timed_out:
+            chk.sanitizer["tsan_reports" if fl == "tsan" else "reports"] += 1
     shutil.rmtree(tmp, ignore_errors=True)
     chk.assumptions = [
         "the numerical derivative is trusted only where its own error "
